@@ -328,7 +328,10 @@ def step (w : W) (o : Op) : W × String :=
     let r := Locking.beginBlock w.lock (o.int "height") (o.int "time") votes maxAge evs
     match r with
     | .ok lk =>
-      if o.str "obs" == "1" then
+      -- cosmos math.Int is 256 bits wide: `slashed.Add(amount)` in handleVoteInfo / HandleEvidences panics when the
+      -- cumulative slashed total of a token no longer fits (known finding F12); the hook then fails as a whole
+      if lk.slashed.any (fun e => !Locking.fits256 e.2) then (w, "=> panic ;; int-overflow")
+      else if o.str "obs" == "1" then
         -- who is punished by this hook: validators whose status becomes downgrade / tombstoned
         let pun := lk.validators.filterMap (fun (a, v) =>
           let old := (w.lock.validators.find? (·.1 == a)).map (·.2.status)
